@@ -11,6 +11,7 @@ import (
 	"sync/atomic"
 	"testing"
 
+	"github.com/scigolib/hdf5/internal/core"
 	"github.com/scigolib/hdf5/internal/verif/vkit"
 	"github.com/scigolib/hdf5/internal/verif/vos"
 )
@@ -21,6 +22,9 @@ type vfBaseFile struct {
 	name  string
 	bytes []byte
 	tree  *vfTree // intact dump
+	// focus, if non-nil, restricts deviations to these byte ranges [lo,hi) (C07: larger
+	// reference files of which only the structures carrying a new feature are mutated)
+	focus [][2]int
 }
 
 // vfLibBaseFiles builds the library-written base files (one per feature).
@@ -66,64 +70,196 @@ func vfLibBaseFiles(t *testing.T, dir string) []vfBaseFile {
 		if err != nil {
 			t.Fatalf("base %s dump: %v", s.name, err)
 		}
-		out = append(out, vfBaseFile{s.name, b, tr})
+		out = append(out, vfBaseFile{s.name, b, tr, nil})
 	}
 	return out
 }
 
-// vfCorpusBaseFiles picks small reference files that open and contain something readable.
-func vfCorpusBaseFiles(max int, maxSize int64) []vfBaseFile {
+// vfCorpusBaseFiles picks small reference files by greedy feature cover: a file's features
+// are what the reader meets while traversing it (object header versions, the message types
+// of every object, layout classes, datatype classes, filters, group styles, which reads
+// work); files are added in the order of most new features (ties: smaller file, then name)
+// until max files are chosen or no file adds a feature.
+type vfCorpusCand struct {
+	fn   string
+	size int64
+	tr   *vfTree
+	feat map[string]bool
+	// objFeat: object header address -> features that object contributes
+	objFeat map[uint64][]string
+}
+
+// vfCorpusScan opens every reference file of minSize..maxSize bytes and records its features.
+func vfCorpusScan(minSize, maxSize int64) []vfCorpusCand {
 	var files []string
 	for _, pat := range []string{"testdata/*.h5", "testdata/reference/*.h5", "testdata/hdf5_official/*.h5"} {
 		m, _ := filepath.Glob(pat)
 		files = append(files, m...)
 	}
 	sort.Strings(files)
-	var out []vfBaseFile
-	seenSig := map[string]bool{}
+	var cands []vfCorpusCand
 	for _, fn := range files {
-		if len(out) >= max {
-			break
-		}
 		st, err := os.Stat(fn)
-		if err != nil || st.Size() < 512 || st.Size() > maxSize {
+		if err != nil || st.Size() < minSize || st.Size() > maxSize {
 			continue
 		}
 		var tr *vfTree
+		feat := map[string]bool{}
+		objFeat := map[uint64][]string{}
 		func() {
 			defer func() { recover() }()
-			tr, _ = vfDumpFile(fn)
+			f, err := Open(fn)
+			if err != nil {
+				return
+			}
+			defer f.Close()
+			tr = vfDumpOpen(f)
+			feat[fmt.Sprintf("superblock-v%d", f.sb.Version)] = true
+			f.Walk(func(p string, obj Object) {
+				var addr uint64
+				switch x := obj.(type) {
+				case *Group:
+					addr = x.address
+				case *Dataset:
+					addr = x.address
+				default:
+					return
+				}
+				func() {
+					defer func() { recover() }()
+					hdr, err := core.ReadObjectHeader(f.osFile, addr, f.sb)
+					if err != nil {
+						return
+					}
+					add := func(k string) {
+						feat[k] = true
+						objFeat[addr] = append(objFeat[addr], k)
+					}
+					for _, m := range hdr.Messages {
+						add(fmt.Sprintf("ohdr-v%d/msg-%#x", hdr.Version, uint16(m.Type)))
+					}
+					if _, ok := obj.(*Dataset); ok {
+						if di, err := core.ReadDatasetInfo(hdr, f.sb); err == nil {
+							if di.Layout != nil {
+								add(fmt.Sprintf("layout-class-%d", di.Layout.Class))
+							}
+							if di.Datatype != nil {
+								add(fmt.Sprintf("datatype-class-%d", di.Datatype.Class))
+							}
+						}
+					}
+				}()
+			})
 		}()
 		if tr == nil || len(tr.Objs) < 2 {
 			continue
 		}
-		// feature signature: kinds + which reads work + attribute presence
-		sig := ""
 		readable := false
-		for _, p := range tr.Order {
-			o := tr.Objs[p]
-			sig += o.Kind[:1]
+		for _, o := range tr.Objs {
 			if o.Kind == "dataset" {
-				for _, v := range []string{o.Read, o.Strings, o.Compound} {
+				for i, v := range []string{o.Read, o.Strings, o.Compound} {
 					if v != "ERR" && v != "PANIC" {
-						sig += "r"
+						feat[fmt.Sprintf("typed-read-%d-works", i)] = true
 						readable = true
 					}
 				}
+				if o.VLen != "" {
+					feat["variable-length-elements"] = true
+				}
 			}
 			if len(o.Attrs) > 0 {
-				sig += "a"
+				feat["attributes"] = true
 				readable = true
 			}
 		}
-		if !readable || seenSig[sig] {
+		if !readable {
 			continue
 		}
-		seenSig[sig] = true
-		b, _ := os.ReadFile(fn)
-		out = append(out, vfBaseFile{"corpus:" + filepath.Base(fn), b, tr})
+		cands = append(cands, vfCorpusCand{fn, st.Size(), tr, feat, objFeat})
 	}
+	return cands
+}
+
+// vfCorpusBaseFiles picks small reference files by greedy feature cover: a file's features
+// are what the reader meets while traversing it (superblock and object header versions, the
+// message types of every object, layout classes, datatype classes, which reads work); files
+// are added in the order of most new features (ties: smaller file, then name) until max files
+// are chosen or no file adds a feature.
+func vfCorpusBaseFiles(max int, maxSize int64) []vfBaseFile {
+	out, _ := vfCorpusCover(vfCorpusScan(512, maxSize), max, map[string]bool{})
 	return out
+}
+
+func vfCorpusCover(cands []vfCorpusCand, max int, covered map[string]bool) ([]vfBaseFile, []vfCorpusCand) {
+	var out []vfBaseFile
+	var chosen []vfCorpusCand
+	used := map[string]bool{}
+	for len(out) < max {
+		best, bestGain := -1, 0
+		for i, c := range cands {
+			if used[c.fn] {
+				continue
+			}
+			gain := 0
+			for k := range c.feat {
+				if !covered[k] {
+					gain++
+				}
+			}
+			if gain > bestGain || (gain == bestGain && gain > 0 && c.size < cands[best].size) {
+				best, bestGain = i, gain
+			}
+		}
+		if best < 0 || bestGain == 0 {
+			break
+		}
+		c := cands[best]
+		used[c.fn] = true
+		// focus: the headers of the objects that carry features not covered before
+		// (greedy again: the object with the most still-uncovered features first, at most 3
+		// objects, 256 bytes from the start of each object header)
+		var focus [][2]int
+		got := map[string]bool{}
+		var addrs []uint64
+		for a := range c.objFeat {
+			addrs = append(addrs, a)
+		}
+		sort.Slice(addrs, func(i, j int) bool { return addrs[i] < addrs[j] })
+		for len(focus) < 3 {
+			var bestA uint64
+			bestN := 0
+			for _, a := range addrs {
+				n := 0
+				for _, k := range c.objFeat[a] {
+					if !covered[k] && !got[k] {
+						n++
+					}
+				}
+				if n > bestN {
+					bestA, bestN = a, n
+				}
+			}
+			if bestN == 0 {
+				break
+			}
+			for _, k := range c.objFeat[bestA] {
+				got[k] = true
+			}
+			lo, hi := int(bestA), int(bestA)+256
+			if hi > int(c.size) {
+				hi = int(c.size)
+			}
+			focus = append(focus, [2]int{lo, hi})
+		}
+		sort.Slice(focus, func(i, j int) bool { return focus[i][0] < focus[j][0] })
+		for k := range c.feat {
+			covered[k] = true
+		}
+		b, _ := os.ReadFile(c.fn)
+		out = append(out, vfBaseFile{"corpus:" + filepath.Base(c.fn), b, c.tr, focus})
+		chosen = append(chosen, c)
+	}
+	return out, chosen
 }
 
 // vfCompareDegraded compares the dump of a damaged/faulted file with the intact dump:
